@@ -57,7 +57,9 @@ mod = importlib.util.module_from_spec(spec)
 spec.loader.exec_module(mod)
 Cache = mod.TimeLimitedMaxSizeCache
 NOW = [0]
-mod.time = types.SimpleNamespace(monotonic_ns=lambda: NOW[0])
+WALL_OFFSET = [10**18]  # the wall clock: elapsed time plus an offset that an operator / NTP may step in either direction
+mod.time = types.SimpleNamespace(monotonic_ns=lambda: NOW[0], monotonic=lambda: NOW[0] / 1e9, perf_counter_ns=lambda: NOW[0], perf_counter=lambda: NOW[0] / 1e9,
+                                 time_ns=lambda: NOW[0] + WALL_OFFSET[0], time=lambda: (NOW[0] + WALL_OFFSET[0]) / 1e9)
 
 
 async def settle(n=6):
@@ -232,12 +234,69 @@ try:
     PAYLOAD = json.load(sys.stdin)
 except Exception:  # pylint: disable=broad-except
     PAYLOAD = {}
+async def scenario_wall_clock_step():
+    """an entry's age is elapsed time: stepping the wall clock backwards must not keep a value alive beyond its lifetime"""
+    version = ['v1']
+
+    async def load(k):
+        return version[0]
+
+    NOW[0] = 5 * 10**9
+    c = Cache(load, 10 * 10**9, 4, 'c')
+    await c.lookup('k')
+    WALL_OFFSET[0] -= 3600 * 10**9  # wall clock set back one hour
+    version[0] = 'v2'
+    NOW[0] += 57 * 10**9  # 57 s really elapse: the entry (lifetime 10 s) is long expired
+    got = await c.lookup('k')
+    WALL_OFFSET[0] += 3600 * 10**9
+    if got != 'v2':
+        return {'confirmed': True, 'kind': 'freshness-wall-clock', 'what': 'lookup returned %r, loaded 57 s ago, although the lifetime is 10 s (the wall clock was set back one hour in between: entry age is not measured on a monotonic clock)' % (got,), 'lifetime_s': 10, 'elapsed_s': 57}
+    return None
+
+
+async def scenario_completion_gap():
+    """a lookup that arrives after the load task has finished but before the lookup that started it has resumed: it must join
+    that load (or hit the cache), never start a second load, and nobody may fail"""
+    loads = []
+    ev = asyncio.Event()
+
+    async def load(k):
+        loads.append(k)
+        await ev.wait()
+        return 'v%d' % len(loads)
+
+    c = Cache(load, 10**12, 4, 'c')
+    first = asyncio.ensure_future(c.lookup('k'))
+    await settle()
+    results = {}
+
+    async def late():
+        await ev.wait()  # wakes right after the load task (same event, registered later), before `first` resumes
+        try:
+            results['late'] = await c.lookup('k')
+        except BaseException as e:  # pylint: disable=broad-except
+            results['late'] = e
+
+    lt = asyncio.ensure_future(late())
+    await settle()
+    ev.set()
+    try:
+        results['first'] = await asyncio.wait_for(first, 5)
+    except BaseException as e:  # pylint: disable=broad-except
+        results['first'] = e
+    await asyncio.wait_for(lt, 5)
+    bad = [k for k, v in results.items() if isinstance(v, BaseException)]
+    if len(loads) != 1 or bad or results.get('late') != results.get('first'):
+        return {'confirmed': True, 'kind': 'single-flight-completion-gap', 'what': 'a lookup arriving between the end of the load and the wake-up of the lookup that started it: key loaded %d time(s), results %r' % (len(loads), {k: repr(v) for k, v in results.items()})}
+    return None
+
+
 SKIP = set(PAYLOAD.get('skip_kinds', []))
 ONLY = PAYLOAD.get('only')
 
 
 async def main():
-    scen = {'capacity': scenario_capacity, 'capacity2': scenario_expiry_race, 'single-flight': scenario_single_flight, 'freshness': scenario_freshness, 'freshness2': scenario_two_stale, 'poison': scenario_poison, 'isolation': scenario_isolation}
+    scen = {'capacity': scenario_capacity, 'capacity2': scenario_expiry_race, 'single-flight': scenario_single_flight, 'freshness': scenario_freshness, 'freshness2': scenario_two_stale, 'poison': scenario_poison, 'isolation': scenario_isolation, 'freshness-wall-clock': scenario_wall_clock_step, 'single-flight-completion-gap': scenario_completion_gap}
     for kind, f in scen.items():
         if kind in SKIP or (ONLY and kind != ONLY):
             continue
